@@ -872,4 +872,129 @@ Section Refine.
       destruct (mem n VN) eqn:Hn; [reflexivity|]. rewrite (v_junk _ _ _ _ _ _ _ HV _ _ _ Hn Ev) in Gv. cbn in Gv. discriminate.
     - intros u. rewrite sunexport_f_uses. apply (mem_users m s HC).
   Qed.
+
+  (* ---- every guarded step of a name-disciplined history preserves the relation ---- *)
+  Theorem step_preserves m s o :
+    Inv m s -> sorted_op VN FN o = true -> guard_step P NMl s o = true -> Inv (step m o) (sstep s o).
+  Proof.
+    intros HI Hs G. destruct o.
+    - apply step_inpkg, HI.
+    - apply step_use; assumption.
+    - discriminate G.
+    - apply step_export; assumption.
+    - apply step_unexport; assumption.
+    - apply step_setq; assumption.
+    - apply step_defvar; assumption.
+    - apply step_defun; assumption.
+    - apply step_makunbound; assumption.
+    - apply step_fmakunbound; assumption.
+  Qed.
+
+  (* ---- under the relation every query answers the same ---- *)
+  Lemma q_var_eq m s c n : Inv m s -> mem n VN = true -> q_var m c n = sq_var s c n.
+  Proof.
+    intros (HC & HV & HF) Hn. unfold q_var, sq_var. rewrite (v_tab _ _ _ _ _ _ _ HV _ _ Hn).
+    change (res (own_v s) (vexp_of (s_vheap s)) (s_uses s)) with (resolve_v s).
+    destruct (resolve_v s c n) as [a|]; [|reflexivity]. rewrite (v_heap _ _ _ _ _ _ _ HV). reflexivity.
+  Qed.
+  Lemma q_var_q_eq m s p n b : Inv m s -> mem n VN = true -> q_var_q m p n b = sq_var_q s p n b.
+  Proof.
+    intros (HC & HV & HF) Hn. unfold q_var_q, sq_var_q. rewrite (v_tab _ _ _ _ _ _ _ HV _ _ Hn).
+    change (res (own_v s) (vexp_of (s_vheap s)) (s_uses s)) with (resolve_v s).
+    destruct (resolve_v s p n) as [a|] eqn:Er; [|reflexivity]. rewrite (v_heap _ _ _ _ _ _ _ HV).
+    destruct (resv_cell m s p n a HV Hn Er) as (q & vv & _ & Hh & Hval & _). rewrite Hh.
+    destruct (vv_val vv); [reflexivity|congruence].
+  Qed.
+  Lemma q_fun_eq m s c p n b : Inv m s -> q_fun m c p n b = sq_fun s c p n b.
+  Proof.
+    intros (HC & HV & HF). unfold q_fun, sq_fun. rewrite (f_tab _ _ _ _ _ _ _ HF).
+    change (res (own_f s) (fexp_of (s_fheap s)) (s_uses s)) with (resolve_f s).
+    destruct (resolve_f s p n) as [a|]; [|reflexivity]. rewrite (f_heap _ _ _ _ _ _ _ HF). reflexivity.
+  Qed.
+
+  Lemma flat_map_ext_in {A B} (f g : A -> list B) l : (forall x, In x l -> f x = g x) -> flat_map f l = flat_map g l.
+  Proof.
+    induction l as [|x l IH]; intros H; [reflexivity|]. cbn. rewrite (H x (or_introl eq_refl)), IH; [reflexivity|].
+    intros y Hy. apply H. right; exact Hy.
+  Qed.
+
+  Theorem observe_eq m s PQ : Inv m s -> observe PQ VN FN m = sobserve PQ VN FN s.
+  Proof.
+    intros HI. unfold observe, sobserve. apply flat_map_ext_in. intros c _. f_equal.
+    - apply flat_map_ext_in. intros n Hn. apply mem_In in Hn. f_equal; [apply q_var_eq; assumption|].
+      apply flat_map_ext_in. intros p _. rewrite !(q_var_q_eq m s) by assumption. reflexivity.
+    - apply flat_map_ext_in. intros n _. f_equal; [apply q_fun_eq; assumption|].
+      apply flat_map_ext_in. intros p _. rewrite !(q_fun_eq m s) by assumption. reflexivity.
+  Qed.
+
+  (* ---- histories ---- *)
+  Definition gprefix := sorted_guard_prefix P VN FN.
+  Theorem refinement_prefix PQ ops : forall m s,
+    Inv m s -> firstn (gprefix s ops) (run PQ VN FN m ops) = firstn (gprefix s ops) (srun PQ VN FN s ops).
+  Proof.
+    induction ops as [|o ops IH]; intros m s HI; [reflexivity|]. unfold gprefix. cbn [sorted_guard_prefix run srun]. fold NMl. fold gprefix.
+    destruct (sorted_op VN FN o && guard_step P NMl s o) eqn:E; [|reflexivity].
+    apply andb_true_iff in E. destruct E as [E1 E2]. pose proof (step_preserves m s o HI E1 E2) as HI'.
+    cbn [firstn]. rewrite (observe_eq _ _ PQ HI'), (IH _ _ HI'). reflexivity.
+  Qed.
+  Theorem refinement_run PQ ops : forall m s,
+    Inv m s -> forallb (sorted_op VN FN) ops = true -> guard_run P NMl s ops = true ->
+    run PQ VN FN m ops = srun PQ VN FN s ops.
+  Proof.
+    induction ops as [|o ops IH]; intros m s HI Hs G; [reflexivity|]. cbn in Hs, G |- *.
+    apply andb_true_iff in Hs. destruct Hs as [E1 Hs]. apply andb_true_iff in G. destruct G as [E2 G].
+    pose proof (step_preserves m s o HI E1 E2) as HI'. rewrite (observe_eq _ _ PQ HI'), (IH _ _ HI' Hs G). reflexivity.
+  Qed.
+  (* the relation itself after any guarded history *)
+  Theorem refinement_state ops : forall m s,
+    Inv m s -> forallb (sorted_op VN FN) ops = true -> guard_run P NMl s ops = true ->
+    Inv (fold_left step ops m) (fold_left sstep ops s).
+  Proof.
+    induction ops as [|o ops IH]; intros m s HI Hs G; [exact HI|]. cbn in Hs, G |- *.
+    apply andb_true_iff in Hs. destruct Hs as [E1 Hs]. apply andb_true_iff in G. destruct G as [E2 G].
+    apply IH; auto. apply step_preserves; assumption.
+  Qed.
 End Refine.
+
+(* ---- instances for the universe of the correspondence (3 packages, variables 0 1, functions 2 3) ---- *)
+Theorem refinement_PK ops :
+  forallb (sorted_op VN FN) ops = true -> guard_run PK NM (sinit 0) ops = true ->
+  run PK VN FN (init 0) ops = srun PK VN FN (sinit 0) ops.
+Proof.
+  intros Hs G. apply (refinement_run PK VN FN eq_refl PK ops (init 0) (sinit 0)); [apply inv_init|exact Hs|exact G].
+Qed.
+
+Theorem refinement_prefix_PK ops :
+  let g := sorted_guard_prefix PK VN FN (sinit 0) ops in
+  firstn g (run PK VN FN (init 0) ops) = firstn g (srun PK VN FN (sinit 0) ops).
+Proof. apply (refinement_prefix PK VN FN eq_refl PK ops (init 0) (sinit 0)), inv_init. Qed.
+
+(* the self-check of the correspondence (code 3: M = observed, but M <> S inside the guarded prefix) can never fire *)
+Lemma qres_eqb_refl a : qres_eqb a a = true.
+Proof. destruct a; cbn; auto. apply Z.eqb_refl. Qed.
+Lemma list_eqb_refl {A} (e : A -> A -> bool) : (forall a, e a a = true) -> forall l, list_eqb e l l = true.
+Proof. intros H l. induction l as [|x l IH]; [reflexivity|]. cbn. rewrite H, IH. reflexivity. Qed.
+Theorem selfcheck_unreachable c : check_case c <> 3.
+Proof.
+  unfold check_case. cbv zeta. rewrite refinement_prefix_PK.
+  rewrite (list_eqb_refl _ (list_eqb_refl _ qres_eqb_refl)).
+  destruct (list_eqb _ _ (snd c)); [discriminate|]. destruct (list_eqb _ _ _); discriminate.
+Qed.
+
+Lemma refinement_general P VN FN : disjoint_names VN FN = true ->
+  forall PQ p0 ops,
+  forallb (sorted_op VN FN) ops = true -> guard_run P (VN ++ FN) (sinit p0) ops = true ->
+  run PQ VN FN (init p0) ops = srun PQ VN FN (sinit p0) ops.
+Proof. intros H PQ p0 ops Hs G. exact (refinement_run P VN FN H PQ ops _ _ (inv_init P VN FN p0) Hs G). Qed.
+
+Lemma tables_are_the_graph P VN FN : disjoint_names VN FN = true ->
+  forall p0 ops, forallb (sorted_op VN FN) ops = true -> guard_run P (VN ++ FN) (sinit p0) ops = true ->
+  let m := fold_left step ops (init p0) in let s := fold_left sstep ops (sinit p0) in
+  (forall p n, mem n VN = true -> vars m p n = resolve_v s p n) /\
+  (forall p n, funcs m p n = resolve_f s p n) /\
+  (forall a, vheap m a = s_vheap s a) /\ (forall a, fheap m a = s_fheap s a).
+Proof.
+  intros H p0 ops Hs G m s.
+  destruct (refinement_state P VN FN H ops _ _ (inv_init P VN FN p0) Hs G) as (_ & HV & HF).
+  destruct HV as [h1 _ h3 _ _ _ _ _ _]. destruct HF as [g1 _ g3 _ _ _]. repeat split; assumption.
+Qed.
